@@ -729,8 +729,13 @@ impl Connection {
 
                 // Allocate space for another datagram
                 datagram_is_loss_probe = self.spaces[space_id].loss_probes != 0;
+                // A loss probe of a later packet number space may get coalesced into this datagram
+                let probe_may_follow = spaces[space_idx + 1..]
+                    .iter()
+                    .any(|&id| self.spaces[id].loss_probes != 0);
                 let next_datagram_size_limit = match self.spaces[space_id].loss_probes {
-                    0 => segment_size,
+                    0 if !probe_may_follow => segment_size,
+                    0 => cmp::min(segment_size, usize::from(INITIAL_MTU)),
                     _ => {
                         self.spaces[space_id].loss_probes -= 1;
                         // Clamp the datagram to at most the minimum MTU to ensure that loss probes
